@@ -657,11 +657,18 @@ func (rn *Runner) Step(in Input) error {
 		}
 		if !in.Straddle || rn.strm == nil || rn.recvDead || in.R == nil {
 			var err error
+			// what Results() handed out earlier belongs to the caller: acknowledging a result must not rewrite it
+			held, _ := rn.c.Results()
+			keep := append([]*client.OpResult{}, held...)
 			if !timed(func() { err = rn.c.AckResult(&client.OpResult{OperationID: in.ID}) }) {
 				rn.hang("ack")
 				return nil
 			}
-			rn.Sink.Emit(Event{"ev": "cack", "id": in.ID, "err": err != nil, "st": rn.state()})
+			mutated := false
+			for i := range keep {
+				mutated = mutated || held[i] != keep[i]
+			}
+			rn.Sink.Emit(Event{"ev": "cack", "id": in.ID, "err": err != nil, "snapmut": mutated, "st": rn.state()})
 			return nil
 		}
 		// AckResult is held between filtering the result queue and installing it while the receiver handles a response
